@@ -1199,7 +1199,7 @@ pub fn encode_tokens(
 
 /// greedy run-length coding of a combined code-length sequence (no regard for the
 /// literal/distance boundary) and emission of a complete dynamic header
-fn emit_header_from_lengths(w: &mut BitW, hlit: usize, hdist: usize, seq: &[u8], cl_seed: u64) {
+pub fn emit_header_from_lengths(w: &mut BitW, hlit: usize, hdist: usize, seq: &[u8], cl_seed: u64) {
     let mut items: Vec<(u8, u8)> = vec![];
     let mut i = 0;
     while i < seq.len() {
@@ -1460,4 +1460,60 @@ pub fn build_prefix_plus_block(
     w.pad(0);
     let plain = tokens_to_plain(prefix, toks);
     (w.out, plain)
+}
+
+/// INVALID or borderline dynamic blocks with degenerate code tables (no literal/length code at
+/// all, only end-of-block, a single literal, no distance code ...) followed by arbitrary bits
+pub fn degenerate_dynamic_block(dna: &mut Dna) -> Vec<u8> {
+    let mut mix = Mix::new(dna.u64());
+    let hlit = 257 + mix.below(30);
+    let hdist = 1 + mix.below(32);
+    let mut lit = vec![0u8; hlit];
+    let mut dist = vec![0u8; hdist];
+    match mix.below(8) {
+        0 => {} // nothing at all
+        1 => lit[256] = 1,
+        2 => {
+            lit[256] = 1;
+            lit[mix.below(256)] = 1;
+        }
+        3 => lit[mix.below(256)] = 1, // no end-of-block
+        4 => {
+            lit[256] = 1;
+            if hlit > 257 {
+                lit[257 + mix.below(hlit - 257)] = 1; // EOB + one length symbol, no distances
+            }
+        }
+        5 => {
+            lit[256] = 2;
+            lit[b'a' as usize] = 1;
+            lit[257.min(hlit - 1)] = 2;
+            dist[mix.below(hdist)] = 1; // single distance code
+        }
+        6 => {
+            // everything length 15 / oversubscribed
+            for x in lit.iter_mut().take(40) {
+                *x = 15;
+            }
+        }
+        _ => {
+            lit[256] = 1;
+            lit[0] = 1;
+            for x in dist.iter_mut() {
+                *x = 5;
+            }
+        }
+    }
+    let mut seq = lit.clone();
+    seq.extend_from_slice(&dist);
+    let mut w = BitW::new();
+    w.put(mix.below(2) as u32, 1);
+    w.put(2, 2);
+    emit_header_from_lengths(&mut w, hlit, hdist, &seq, mix.next());
+    let n = mix.range(0, 40);
+    for _ in 0..n {
+        w.put(mix.next() as u32 & 0xff, 8);
+    }
+    w.pad(0);
+    w.out
 }
